@@ -20,6 +20,27 @@ func refArchMatch(c, p Triple3) bool {
 	return comp(p.ABI, c.ABI) && comp(p.OS, c.OS) && comp(p.CPU, c.CPU)
 }
 
+// abiUndecided: the answer hinges on the default ABI of a two-part concrete
+// name ("?OS"), which the statement leaves open - such pairs are not asserted.
+func abiUndecided(c, p Triple3) bool {
+	und := func(x, y string) bool { return strings.HasPrefix(x, "?") && y != "any" && y != x }
+	if !und(c.ABI, p.ABI) && !und(p.ABI, c.ABI) {
+		return false
+	}
+	comp := func(pc, cc string) bool { return pc == "any" || cc == "any" || pc == cc }
+	return comp(p.OS, c.OS) && comp(p.CPU, c.CPU)
+}
+
+func altUndecided(a AltAST, c Triple3) bool {
+	for _, n := range a.Archs {
+		m, _ := archModel(n)
+		if abiUndecided(c, m) {
+			return true
+		}
+	}
+	return false
+}
+
 func (t Triple3) wildcard() bool { return t.ABI == "any" || t.OS == "any" || t.CPU == "any" }
 func (t Triple3) arch() dependency.Arch {
 	return dependency.Arch{ABI: t.ABI, OS: t.OS, CPU: t.CPU}
@@ -77,8 +98,8 @@ func shortestName(t Triple3) string {
 		return "any"
 	case t.ABI == "gnu" && t.OS == "linux" && t.CPU != "any":
 		return t.CPU
-	case t.ABI == "any":
-		return t.OS + "-" + t.CPU
+	case t.ABI == "any" && (t.OS == "any" || t.CPU == "any"):
+		return t.OS + "-" + t.CPU // the wildcards OS-any / any-CPU; OS-CPU itself names a concrete architecture
 	}
 	return t.name3()
 }
@@ -222,12 +243,16 @@ var realArchNames = []string{"all", "any", "amd64", "i386", "arm64", "armhf", "a
 
 var specC06Real = Register(&Spec[RealPair]{
 	Prop: "C06", Name: "realnames",
-	Rule: "random pairs of ~50 real Debian architecture names and wildcards (1-, 2- and 3-part), parsed with ParseArch; the oracle is applied to the independent name model (1 part: atoms any/all or gnu-linux-CPU; 2 parts: ABI unconstrained; 3 parts: literal). Pairs where both names contain an 'any' component are outside the statement and are counted as skipped; for the rest a.Is(b) == b.Is(a) == model. Non-trivial: exactly one side is a wildcard; distinct by (a,b).",
+	Rule: "random pairs of ~50 real Debian architecture names and wildcards (1-, 2- and 3-part), parsed with ParseArch; the oracle is applied to the independent name model (1 part: atoms any/all or gnu-linux-CPU; 2 parts: a wildcard with unconstrained ABI when a component is 'any', otherwise the concrete architecture of that OS - hurd-i386, kfreebsd-amd64, linux-amd64 (= amd64) - which matches itself, any, OS-any and any-CPU; 3 parts: literal). Pairs where both names contain an 'any' component are outside the statement and are counted as skipped, as are pairs whose answer would hinge on which ABI is the default of a non-linux OS; for the rest a.Is(b) == b.Is(a) == model. Non-trivial: exactly one side is a wildcard; distinct by (a,b).",
 	Check: func(c RealPair, r *Recorder) error {
 		ma, _ := archModel(c.A)
 		mb, _ := archModel(c.B)
 		if ma.wildcard() && mb.wildcard() {
 			r.Case(c.A+"|"+c.B, false, "skipped-both-wildcards")
+			return nil
+		}
+		if abiUndecided(ma, mb) {
+			r.Case(c.A+"|"+c.B, false, "skipped-default-abi-undecided")
 			return nil
 		}
 		nt := ma.wildcard() != mb.wildcard()
@@ -273,7 +298,7 @@ type SelectCase struct {
 	Arch string `json:"arch"` // concrete architecture name
 }
 
-var concreteNames = []string{"amd64", "i386", "arm64", "armhf", "all", "gnu-kfreebsd-amd64", "gnu-hurd-i386", "musl-linux-arm64", "musl-linux-amd64", "s390x"}
+var concreteNames = []string{"amd64", "i386", "arm64", "armhf", "all", "gnu-kfreebsd-amd64", "gnu-hurd-i386", "musl-linux-arm64", "musl-linux-amd64", "s390x", "hurd-i386", "kfreebsd-amd64", "linux-i386"}
 
 func genSelectCase(t *rapid.T) SelectCase {
 	ast := genDepAST(t, "d", 5, 4, true)
@@ -323,9 +348,17 @@ func altAdmits(a AltAST, c Triple3) bool {
 
 var specC06Select = Register(&Spec[SelectCase]{
 	Prop: "C06", Name: "select",
-	Rule: "random dependency ASTs (C04 generator, canonical spacing) parsed and queried for one of 10 concrete architectures. Oracle on the AST: GetPossibilities returns, per relation and in order, the first non-substvar alternative whose architecture list admits the architecture (nothing for a relation with none); GetAllPossibilities returns every non-substvar alternative in order; GetSubstvars the substvars in order. Non-trivial: some relation selects a later alternative or selects nothing although it has package alternatives; distinct by (text, arch).",
+	Rule: "random dependency ASTs (C04 generator, canonical spacing) parsed and queried for one of 13 concrete architectures (one-part, three-part and two-part OS-CPU names such as hurd-i386). Oracle on the AST: GetPossibilities returns, per relation and in order, the first non-substvar alternative whose architecture list admits the architecture (nothing for a relation with none); GetAllPossibilities returns every non-substvar alternative in order; GetSubstvars the substvars in order. Non-trivial: some relation selects a later alternative or selects nothing although it has package alternatives; distinct by (text, arch).",
 	Check: func(c SelectCase, r *Recorder) error {
 		cm, _ := archModel(c.Arch)
+		for _, rel := range c.AST.Rels {
+			for _, a := range rel.Alts {
+				if altUndecided(a, cm) {
+					r.Case(c.Text+"|"+c.Arch, false, "skipped-default-abi-undecided")
+					return nil
+				}
+			}
+		}
 		var want, all, sv []AltAST
 		later := false
 		for _, rel := range c.AST.Rels {
